@@ -49,7 +49,7 @@ def is_sorted_expr(e, depth=0):
             return True
         if cn in ('np.array', 'numpy.array', 'np.asarray', 'numpy.asarray', 'list', 'tuple') and e.args:
             return is_sorted_expr(e.args[0], depth + 1)
-        if isinstance(e.func, ast.Attribute) and e.func.attr in ('astype', 'copy', 'flatten', 'ravel') :
+        if isinstance(e.func, ast.Attribute) and e.func.attr in ('astype', 'copy', 'flatten', 'ravel', 'tolist'):
             return is_sorted_expr(e.func.value, depth + 1)
         return False
     if isinstance(e, ast.Subscript) and isinstance(e.value, ast.Call) and \
@@ -73,7 +73,16 @@ def judge(fn_node):
             if seq is None:
                 continue
             ex = expand_locals(fn_node, seq, depth=4, defs=defs)
-            out.append((n, ex, is_sorted_expr(ex)))
+            ok = is_sorted_expr(ex)
+            if not ok and isinstance(seq, ast.Name):
+                # sorted in place before the search:  idx.sort()
+                if any(isinstance(c, ast.Call) and isinstance(c.func, ast.Attribute) and c.func.attr == 'sort' and
+                       ntext(c.func.value) == seq.id for c in walk_no_nested(fn_node)):
+                    ok = True
+            if not ok and any(isinstance(c, ast.Call) and 'cumsum' in call_name(c) for c in ast.walk(ex)):
+                raise AnalysisError('R35: `%s` searches a running sum (`%s`), which is sorted only for non-negative '
+                                    'terms -- not decided' % (ntext(n)[:40], ntext(ex)[:40]))
+            out.append((n, ex, ok))
     return out
 
 
